@@ -35,9 +35,13 @@ var c11Frames = map[string]string{
 	"zero":      ``,
 	"big":       `{"parameters":{"s":"` + strings.Repeat("y", 70000) + `"}}`,
 	"contfalse": `{"continues":false,"parameters":{"b":[1,2]},"extra":null}`,
+	"errnop":    `{"error":"x.y.E"}`,
+	"errnullp":  `{"error":"x.y.E","parameters":null}`,
+	"mnfnop":    `{"error":"org.varlink.service.MethodNotFound"}`,
+	"ipnullp":   `{"error":"org.varlink.service.InvalidParameter","parameters":null}`,
 }
 
-var c11Order = []string{"empty", "params", "cont", "err", "mnf", "mnfbad", "null", "array", "number", "string", "contx", "err5", "params5", "errempty", "trunc", "badutf", "zero", "big", "contfalse"}
+var c11Order = []string{"empty", "params", "cont", "err", "mnf", "mnfbad", "null", "array", "number", "string", "contx", "err5", "params5", "errempty", "trunc", "badutf", "zero", "big", "contfalse", "errnop", "errnullp", "mnfnop", "ipnullp"}
 
 type c11Desc struct {
 	Frames []string `json:"frames,omitempty"`
@@ -240,8 +244,11 @@ func c11Judge(fail func(string, ...interface{}), d c11Desc, off, k int, rest, en
 			e, ok := err.(*varlink.Error)
 			if !ok || e.Name != name {
 				fail("%s: remote error arrived as %T %v", where, err, err)
-			} else if raw, _ := e.Parameters.(*json.RawMessage); raw == nil || !rawJSONEqual(*raw, []byte(`{"k":"v"}`)) {
+			} else if raw, _ := e.Parameters.(*json.RawMessage); strings.Contains(frame, `"parameters":{`) && (raw == nil || !rawJSONEqual(*raw, []byte(`{"k":"v"}`))) {
 				fail("%s: remote error parameters changed", where)
+			} else if !strings.Contains(frame, `"parameters":{`) && raw != nil && string(*raw) != "null" {
+				// an error frame without parameters (absent or null) carries none
+				fail("%s: remote error without parameters arrived with %s", where, string(*raw))
 			}
 		}
 	case "ok":
